@@ -392,4 +392,34 @@ func init() {
 			props["C19"].Outside[i] = "health Watch stream contents over WebSocket (the binding's routing is checked, the watch loop blocks on channels); SetServingStatus histories longer than one call"
 		}
 	}
+
+	ext("C15", "cancellation: the request context is cancelled while the handler runs (gRPC with and without grpc-timeout, gRPC-web over HTTP/1.1 and HTTP/2, HTTP transcoding) and the handler's own context must then be cancelled; a streaming gRPC handler whose client disconnects while it waits in RecvMsg (after 0..1 complete messages, 0..5 bytes into a further frame) or while it sends (connection gone from the 0th..3rd Write on)",
+		HarnessSpec{Name: "VerifH_cancel", Covers: []string{"grpc", "grpc-with-timeout", "grpc-web", "http", "stream-between-messages", "stream-inside-message", "send-fails", "send-ok"}})
+	props["C15"].Assume = append(props["C15"].Assume, "net/http's contract stands in for the HTTP server: on disconnect the request context is cancelled and the blocked body Read / response Write returns an error (the harness's reader / writer do exactly that at the point where the real ones would block)")
+	replaceOutside := func(id, prefix, with string) {
+		found := false
+		var keep []string
+		for _, o := range props[id].Outside {
+			if strings.HasPrefix(o, prefix) {
+				found = true
+				if with != "" {
+					keep = append(keep, with)
+				}
+				continue
+			}
+			keep = append(keep, o)
+		}
+		if !found {
+			panic("props: no outside entry of " + id + " starts with " + prefix)
+		}
+		props[id].Outside = keep
+	}
+	replaceOutside("C15", "client cancellation / disconnect", "goroutine-level blocking and the real HTTP/2 server: a disconnect is modelled sequentially (the blocked Read / Write fails and the request context is cancelled); WebSocket cancellation")
+	replaceOutside("C03", "float / double / 64-bit", "float / double, uint64 / fixed64 and well-known-type text conversion (strconv float parsing and protojson's well-known types are not encoded) - N/A part")
+	replaceOutside("C03", "real JSON / protobuf body codecs and gzip", "real protobuf binary bodies and gzip: the claim is the plumbing (which bytes reach which codec on which (sub)message, params after the body, first message only), the string / bytes / enum / bool / int32 / int64 / uint32 conversions, and JSON bodies of string and nested-message members through larking's JSON codec (protojson modelled, real in replays)")
+	replaceOutside("C04", "Content-Encoding truthfulness", "gzip's real byte stream (Content-Encoding truthfulness is decided with a marking compressor registered under the negotiated encoding)")
+	replaceOutside("C06", "gRPC-web framing and multi-frame gRPC streams", "gRPC-web streams of more than one request frame")
+	replaceOutside("C14", "client-visible trailers on gRPC / gRPC-web", "")
+	replaceOutside("C16", "publication atomicity of registerService", "")
+	replaceOutside("C19", "config-rule vs annotation equivalence", "")
 }
